@@ -87,8 +87,15 @@ class Check:
       self.samples.append(_jsonable(s))
 
   def require(self, cond: bool, msg: str):
-    """Vacuity / machinery guard."""
+    """Vacuity / machinery guard.
+
+    When violations have already been recorded the guard only notes the gap: a broken
+    implementation may well be the reason a mechanism was never reached, and the violation is
+    the verdict."""
     if not cond:
+      if self.violations:
+        self.notes.setdefault('vacuity_gaps_after_violation', []).append(msg)
+        return
       raise MachineryFailure(msg)
 
   # ---- verdicts ----------------------------------------------------------
